@@ -10,7 +10,9 @@ from ..common.env import import_library
 
 ID = "C04"
 RULE = ("'sequence': 2-3 dissimilarity objects (combined with default or supplied components, different delta_empty) are built one after the other and "
-        "each is then checked, in both orders. Otherwise: case = (dissimilarity spec, list of unit pairs). 'pairs': every class incl. combined with components built with the same or a different "
+        "each is then checked, in both orders. 'supply-order': one label->position map (ordinal with explicit positions / numerical) "
+        "supplied in 2-4 orders: every pair of names gets the same d() and compiled value from each object (metamorphic, no calibrated constant). "
+        "Otherwise: case = (dissimilarity spec, list of unit pairs). 'pairs': every class incl. combined with components built with the same or a different "
         "delta_empty, alpha/beta in {0, .5, .75, 1, 2, 3}, labels in generated (unsorted) order; unit pairs on the float32-exact grid and with arbitrary "
         "floats (|t| <= 1000, duration >= 0.05, docs-like values), identical / nested / disjoint / touching. 'bigcats': 1..300 categories generated from a "
         "seed, category ranks concentrated around 126-129 and 254-257. Oracle: compiled form (observed through a 2-annotator unitary alignment's disorder, "
@@ -367,8 +369,58 @@ def sequence_cases(draw):
     return {"sequence": specs, "pairs": pairs}
 
 
+@st.composite
+def supply_order_cases(draw):
+    """one label -> position map (ordinal with explicit positions, or numerical labels), supplied in 2-4 different orders"""
+    kind = draw(st.sampled_from(["ordinal", "numerical"]))
+    pool = gen.LABELS_NUM if kind == "numerical" else gen.LABELS_WORDS + gen.LABELS_ABC
+    labels = draw(st.lists(st.sampled_from(pool), min_size=2, max_size=7, unique=True))
+    pos = draw(st.lists(st.integers(0, 40).map(lambda k: k / 4), min_size=len(labels), max_size=len(labels))) if kind == "ordinal" else None
+    idx = list(range(len(labels)))
+    orders = [idx] + [list(draw(st.permutations(idx))) for _ in range(draw(st.integers(1, 3)))]
+    return {"kind": kind, "labels": labels, "p": pos, "orders": orders, "delta": draw(st.sampled_from(gen.DELTAS)),
+            "combined": draw(st.integers(0, 2)) == 0}
+
+
+def check_supply_order(case):
+    """metamorphic: an ordinal / numerical dissimilarity depends on the two names (and their positions), not on the order of supply"""
+    pa = import_library()
+    from pyannote.core import Segment
+    labels, pos = case["labels"], case["p"]
+    tables = []
+    for order in case["orders"]:
+        sp = {"kind": case["kind"], "labels": [labels[i] for i in order], "delta": case["delta"]}
+        if case["kind"] == "ordinal":
+            sp["p"] = [pos[i] for i in order]
+        if case["combined"]:
+            sp = {"kind": "combined", "alpha": 0.0, "beta": 1.0, "delta": case["delta"], "pos": None, "cat": sp}
+        d = oracle.build_dissim(_expand(sp), cache=False)
+        vals = {}
+        for a in labels:
+            for b in labels:
+                U, V = pa.Unit(Segment(0, 1), a), pa.Unit(Segment(0, 1), b)
+                vals[(a, b)] = (float(lib_call("d(u,v)", d.d, U, V)),
+                                float(lib_call("compiled(u,v)", pa.UnitaryAlignment([("a", U), ("b", V)]).compute_disorder, d)))
+        tables.append(vals)
+    scale = max([abs(x) for t in tables for v in t.values() for x in v] + [oracle.FLOOR * case["delta"]])
+    for k, t in enumerate(tables[1:], 1):
+        for key, (dv, cv) in t.items():
+            d0, c0 = tables[0][key]
+            if abs(dv - d0) > 1e-5 * scale or abs(cv - c0) > 1e-5 * scale:
+                raise Violation("supply-order:value-depends-on-order-of-labels",
+                                f"{case['kind']} {key}: supplied as {[labels[i] for i in case['orders'][0]]} -> d {d0} compiled {c0}; "
+                                f"supplied as {[labels[i] for i in case['orders'][k]]} -> d {dv} compiled {cv} (positions {pos})")
+    distinct_orders = len({tuple(o) for o in case["orders"]})
+    ends_moved = any((o[0], o[-1]) != (case["orders"][0][0], case["orders"][0][-1]) for o in case["orders"][1:])
+    return {"nontrivial": distinct_orders >= 2 and len(labels) >= 3,
+            "classes": [f"kind={case['kind']}", f"orders={distinct_orders}"] + (["first-or-last-supplied-label-differs"] if ends_moved else [])
+            + (["inside-combined"] if case["combined"] else [])}
+
+
 def subchecks(tier):
     return [
+        Sub(name="supply-order", check=check_supply_order, strategy=supply_order_cases(),
+            examples={"quick": 60, "thorough": 800}, shards={"quick": 8, "thorough": 16}),
         Sub(name="pairs", check=check, strategy=pair_cases(),
             examples={"quick": 100, "thorough": 800}, shards={"quick": 8, "thorough": 16}),
         Sub(name="sequence", check=check, strategy=sequence_cases(),
